@@ -269,10 +269,35 @@ impl winnow::stream::ContainsToken<Token> for &'_ [Token] {
 pub fn lex(input: &mut &str) -> PResult<Vec<Token>> {
     preceded(
         multispace0,
-        repeat_till(1.., terminated(token, multispace0), eof),
+        repeat_till(1.., terminated(bounded_token, multispace0), eof),
     )
     .map(|(tks, _)| tks)
     .parse_next(input)
+}
+
+/// Consume a single token and check that a test, action or option ends on a word boundary.
+///
+/// Without this `-true-false` or `-uid 5-true` would be lexed as two tokens, the second one
+/// starting in the middle of a word.
+fn bounded_token(input: &mut &str) -> PResult<Token> {
+    let start = *input;
+    let tk = token.parse_next(input)?;
+
+    let consumed = &start[..start.len() - input.len()];
+    let punctuation = matches!(
+        tk,
+        Token::LParen | Token::RParen | Token::Not | Token::Comma
+    );
+    let boundary = |c: char| " \t\r\n)".contains(c);
+
+    if punctuation || input.is_empty() || consumed.ends_with(boundary) || input.starts_with(boundary)
+    {
+        Ok(tk)
+    } else {
+        cut_err(fail.context(expected("invalid_token")))
+            .context(label("syntax"))
+            .parse_next(input)
+    }
 }
 
 /// Consume a single token from the input.
@@ -302,7 +327,10 @@ fn _parse(input: &mut &str) -> PResult<(RunOptions, Exp)> {
     winnow::Parser::<&str, Vec<GlobalOption>, winnow::error::ContextError>::parse_next(
         &mut preceded(
             multispace0,
-            repeat(0.., terminated(GlobalOption::parse, multispace0)),
+            repeat(
+                0..,
+                terminated(GlobalOption::parse, alt((multispace1, eof))),
+            ),
         ),
         input,
     )?
